@@ -154,6 +154,11 @@ def main():
     rep.trusted = list(getattr(m, "TRUSTED", []))
     rep.assumptions = list(getattr(m, "ASSUMPTIONS", []))
 
+    # 4b. source guards of the hand-written models
+    for rel, qual, why in esrv.check_guards(ctx.scratch, getattr(m, "SOURCE_GUARDS", [])):
+        rep.fail("broken-correspondence", "%s::%s is no longer the source the hand-written model was written against: %s" % (rel, qual, why),
+                 key=prop + ":guard:" + qual, theorem="hand-written model of %s" % qual, observed=why)
+
     # 5. correspondence; 7. independent sweep (both always run)
     for phase in ("correspondence", "search"):
         fn = getattr(m, phase, None)
